@@ -24,7 +24,7 @@ META = {
         'quick': {'traversable-answers': 50000, 'answer:or:True': 1000, 'answer:or:False': 1000, 'answer:and:True': 1000,
                   'answer:and:False': 1000, 'answer:defense:False': 500, 'surfaces-compared': 5000, 'incremental-steps-compared': 2000,
                   'class:and-mixed-necessary-parents': 500, 'class:batch-shares-child': 100, 'defense-surfaces-compared': 4000,
-                  'class:suppressed-defense': 100, 'snapshots-compared': 10000, 'class:other-attacker-compromised-parent': 200},
+                  'class:suppressed-defense': 100, 'snapshots-compared': 10000, 'class:other-attacker-compromised-parent': 200, 'class:labels-changed-between-queries': 100},
         'thorough': {'traversable-answers': 5000000, 'surfaces-compared': 500000, 'incremental-steps-compared': 200000},
     },
 }
@@ -71,7 +71,7 @@ def _check(case, res, count=True):
     """case: desc, attackers: [list of batches (lists of node indices)]"""
     from maltoolbox.attackgraph import Attacker
     from maltoolbox.attackgraph import query
-    desc = case['desc']
+    desc = copy.deepcopy(case['desc'])
     g, objs = agraph.build(desc)
     n = len(objs)
     idx = {id(o): i for i, o in enumerate(objs)}
@@ -120,6 +120,21 @@ def _check(case, res, count=True):
             return ('query.enabled-defenses:wrong-set', 'enabled defenses %s expected %s' % (got_ed, want_ed))
         rounds = max(len(b) for b in case['attackers']) if case['attackers'] else 0
         for r in range(rounds + 1):
+            if r > 0 and case.get('relabel'):
+                # the analysis is re-run between two queries (a defense was changed): labels flip in place.
+                # A surface computed before is no longer comparable, the queries must follow the new labels.
+                import random as _random
+                rr = _random.Random(case['relabel'] * 31 + r)
+                flipped = False
+                for i in range(n):
+                    if rr.random() < 0.2:
+                        which = rr.choice(['is_viable', 'is_necessary'])
+                        desc['nodes'][i][which] = not desc['nodes'][i][which]
+                        setattr(objs[i], which, desc['nodes'][i][which])
+                        flipped = True
+                if flipped:
+                    cnt('class:labels-changed-between-queries')
+                    surfaces = [None] * len(atts)
             for k, a in enumerate(atts):
                 batches = case['attackers'][k]
                 new = []
@@ -164,7 +179,8 @@ def _check(case, res, count=True):
                 if r > 0 and surfaces[k] is not None:
                     if len(new) >= 2 and any(c in children[new[0]] for x in new[1:] for c in children[x]):
                         cnt('class:batch-shares-child')
-                    prev = list(surfaces[k])
+                    # the caller extends the list it got earlier (the function works in place); half of the time a copy
+                    prev = surfaces[k] if (r + k) % 2 == 0 else list(surfaces[k])
                     inc = queried('update_attack_surface_add_nodes',
                                   lambda: query.update_attack_surface_add_nodes(a, prev, [objs[i] for i in new]))
                     cnt('incremental-steps-compared')
@@ -273,7 +289,7 @@ def run(rng, res, tier, shard, nshards):
         atts = []
         for _k in range(rng.randint(1, 3)):
             atts.append([[rng.randrange(size) for _ in range(rng.randint(1, 4))] for _ in range(rng.randint(1, 10))])
-        case = {'desc': desc, 'attackers': atts}
+        case = {'desc': desc, 'attackers': atts, 'relabel': rng.randrange(1, 10 ** 6) if rng.random() < 0.3 else None}
         f = check(case, res)
         res.count('random-cases')
         res.case(digest(case) if nontrivial(case) else None)
